@@ -2,6 +2,7 @@ import Model.Broker
 import Proofs.BrokerProc
 import Proofs.BrokerSetup
 import Proofs.BrokerClean
+import Proofs.BrokerB5Ack
 /-
   Props/C20.lean — property C20: nothing is processed before an accepted CONNECT; each request
   gets its response.  Statements are about the processor `BState.recv` of the broker model, for
@@ -332,5 +333,125 @@ example : NotOwner sConn 0 ∧ OutClean sConn := by
   · intro e he; have : sConn.stored = [] := rfl; rw [this] at he; cases he
   · intro e he; have : sConn.temp = [] := rfl; rw [this] at he; cases he
   · intro cid b hb; have : sConn.stored = [] := rfl; rw [this] at hb; cases hb
+
+/-! ### global forms: every history, every reachable state
+
+  `BrokerB5.RunC cfg s n`: `s` is reached from the empty broker by steps of the model in an
+  environment that never reuses a connection identifier (`BrokerB4.StepF`, the assumption of C14
+  `terminate_once`: identifiers stand for `*Client` pointers), and `n c` is the ghost counter
+  "number of CONNACK packets ever appended to `procOut` / `ackOut` of connection `c`": every step adds
+  `BrokerB5.connacksPushed s s' c`, the CONNACKs behind the old contents of the two queues.
+  `connack_counter_exact` / `observation_only_removes` show that this is an honest count: a stimulus
+  only appends to the queues (and the counter grows by the CONNACKs among what was appended), an
+  observation only removes.  (With identifiers reused the statements fail for an uninteresting
+  reason: `conn c` on an old identifier starts a new connection under the old name, which
+  legitimately gets its own CONNACK and may find deferred acknowledgements of its predecessor.) -/
+
+/-- the runs of `RunC` are exactly the runs of `BrokerB4.RunG` (C14), hence reachable states -/
+theorem runC_iff_runG {cfg : Cfg} {s : BState} :
+    (∃ n, BrokerB5.RunC cfg s n) ↔ ∃ log, BrokerB4.RunG cfg s log :=
+  ⟨fun ⟨_, h⟩ => BrokerB5.runG_of_runC h, fun ⟨_, h⟩ => BrokerB5.runC_of_runG h⟩
+
+theorem runC_reachable {cfg : Cfg} {s : BState} {n : ConnId → Nat} (h : BrokerB5.RunC cfg s n) :
+    Reachable cfg s := h.reachable
+
+/-- Over every history: at most one CONNACK is ever appended to the output queues of a connection. -/
+theorem at_most_one_connack_run {cfg : Cfg} {s : BState} {n : ConnId → Nat} (h : BrokerB5.RunC cfg s n)
+    (c : ConnId) : n c ≤ 1 := BrokerB5.connacks_le_one h c
+
+/-- the counter is exact: a stimulus only appends to the two queues of a connection, and the counter
+    grows by the number of CONNACKs among the appended packets … -/
+theorem connack_counter_exact {cfg : Cfg} {s s' : BState} {n : ConnId → Nat} (h : BrokerB5.RunC cfg s n) (st : Stim)
+    (hfresh : ∀ c, st = .conn c → s.conn? c = none) (ss : List BState) (hst : stim s st = .ok ss) (hm : s' ∈ ss)
+    (c : ConnId) (x : BConn) (hx : s.conn? c = some x) :
+    ∃ x' lp la, s'.conn? c = some x' ∧ x'.procOut = x.procOut ++ lp ∧ x'.ackOut = x.ackOut ++ la ∧
+      BrokerB5.connacksPushed s s' c = (lp ++ la).countP isConnack :=
+  BrokerB5.stim_only_appends h st hfresh ss hst hm c x hx
+
+/-- … and an observation (a packet written, a failed write, `closed`, a backend call seen) only removes -/
+theorem observation_only_removes {s s' : BState} (o : Obs) (hm : s' ∈ observe s o) (c : ConnId) (x : BConn)
+    (hx : s.conn? c = some x) :
+    ∃ x' k j, s'.conn? c = some x' ∧ x'.procOut = x.procOut.drop k ∧ x'.ackOut = x.ackOut.drop j ∧
+      BrokerB5.connacksPushed s s' c = 0 :=
+  BrokerB5.obs_only_removes o hm c x hx
+
+/-- In every state of every history a connection that still waits for its CONNECT (phase `connecting`)
+    has nothing in its acknowledgement queue, no deferred acknowledgement is parked for it, and its
+    processor output is empty — or, once it is closed, the one CONNACK(5) of a refused authentication;
+    while it is alive no CONNACK has ever been queued for it.  No reply of any kind precedes an
+    accepted CONNECT. -/
+theorem nothing_sent_before_accept_run {cfg : Cfg} {s : BState} {n : ConnId → Nat} (h : BrokerB5.RunC cfg s n)
+    (c : ConnId) (x : BConn) (hx : s.conn? c = some x) (hp : x.phase = .connecting) :
+    x.ackOut = [] ∧ (x.procOut = [] ∨ (x.alive = false ∧ x.procOut = [.connack false 5])) ∧
+    (∀ a ∈ s.pendingAcks, a.conn ≠ c) ∧ (x.alive = true → x.procOut = [] ∧ n c = 0) := by
+  obtain ⟨hci, hgi⟩ := BrokerB5.runC_inv h
+  obtain ⟨a1, a2⟩ := hci.k1 c x hx hp
+  refine ⟨a1, a2, ?_, ?_⟩
+  · intro a ha heq
+    obtain ⟨_, y, hy, hpy⟩ := hci.k2 a ha
+    rw [heq, hx] at hy; cases hy; exact hpy hp
+  · intro hal
+    have := hgi c
+    rw [hx] at this
+    refine ⟨?_, this.2 hp hal⟩
+    rcases a2 with a2 | ⟨a2, _⟩
+    · exact a2
+    · rw [hal] at a2; cases a2
+
+/-- the two side conditions of the per-step theorem `at_most_one_connack` hold in every state of every
+    history: no stored outgoing packet store contains a CONNACK (`OutClean`), and no deferred
+    acknowledgement is a CONNACK or belongs to a connection that has not been accepted -/
+theorem outClean_run {cfg : Cfg} {s : BState} {n : ConnId → Nat} (h : BrokerB5.RunC cfg s n) : OutClean s :=
+  (BrokerB5.runC_inv h).1.k3
+
+theorem pending_acks_run {cfg : Cfg} {s : BState} {n : ConnId → Nat} (h : BrokerB5.RunC cfg s n)
+    (a : PendingAck) (ha : a ∈ s.pendingAcks) :
+    isConnack a.pkt = false ∧ ∃ x, s.conn? a.conn = some x ∧ x.phase ≠ .connecting :=
+  (BrokerB5.runC_inv h).1.k2 a ha
+
+/-! non-vacuity of the global forms: concrete histories -/
+
+theorem stepF_of_stim (s : BState) (st : Stim) (s' : BState) (hfresh : ∀ c, st = .conn c → s.conn? c = none)
+    (h : stim s st = .ok [s']) : BrokerB4.StepF s s' :=
+  BrokerB4.StepF.stim st hfresh [s'] h (List.mem_singleton.2 rfl)
+
+/-- an accepted CONNECT: the counter of connection 0 is 1, the CONNACK is in the processor's output -/
+example : ∃ n, BrokerB5.RunC {} sUp n ∧ n 0 = 1 ∧ n 1 = 0 ∧
+    (sUp.conn? 0).map (·.procOut) = some [.connack false 0] := by
+  have r0 : BrokerB5.RunC {} ({ cfg := {} } : BState) _ := .init
+  have r1 := BrokerB5.RunC.step r0 (stepF_of_stim _ (.conn 0) sConn (fun _ _ => rfl) rfl)
+  have r2 := BrokerB5.RunC.step r1 (stepF_of_stim sConn (.send 0 (.connect [97] 0 [] [] true none 4)) sUp
+    (fun _ h => by cases h) rfl)
+  exact ⟨_, r2, by decide, by decide, rfl⟩
+
+/-- a refused CONNECT (wrong password): counter 1, the connection is closed in phase `connecting` with
+    exactly the CONNACK(5) queued — the second alternative of `nothing_sent_before_accept_run` -/
+example : ∃ s n, BrokerB5.RunC { creds := some [([117], [112])] } s n ∧ n 0 = 1 ∧
+    ∃ x, s.conn? 0 = some x ∧ x.phase = .connecting ∧ x.alive = false ∧ x.procOut = [.connack false 5] ∧ x.ackOut = [] := by
+  have r0 : BrokerB5.RunC { creds := some [([117], [112])] } ({ cfg := { creds := some [([117], [112])] } } : BState) _ := .init
+  have r1 := BrokerB5.RunC.step r0 (stepF_of_stim _ (.conn 0) sAuth (fun _ _ => rfl) rfl)
+  have r2 := BrokerB5.RunC.step r1 (stepF_of_stim sAuth (.send 0 (.connect [97] 0 [117] [120] true none 4)) _
+    (fun _ h => by cases h) rfl)
+  exact ⟨_, _, r2, by decide, _, rfl, rfl, rfl, rfl, rfl⟩
+
+/-- a connection waiting for its CONNECT, alive: the first alternative -/
+example : ∃ n, BrokerB5.RunC {} sConn n ∧ ∃ x, sConn.conn? 0 = some x ∧ x.phase = .connecting ∧ x.alive = true :=
+  ⟨_, BrokerB5.RunC.step .init (stepF_of_stim _ (.conn 0) sConn (fun _ _ => rfl) rfl), _, rfl, rfl, rfl⟩
+
+/-- why the global forms assume that connection identifiers are not reused: with reuse, a reachable
+    state in which a connection waiting for its CONNECT has a PUBACK in its acknowledgement queue —
+    connection 0 is accepted, publishes with QoS 1 while the backend acknowledges late, then the
+    identifier 0 is handed to the broker again (a new connection under the old name), and the
+    deferred acknowledgement of its predecessor is released -/
+example : ∃ s x, Reachable {} s ∧ s.conn? 0 = some x ∧ x.phase = .connecting ∧ x.alive = true ∧
+    x.ackOut = [.puback 7] := by
+  have r0 : Reachable {} ({ cfg := {} } : BState) := .init
+  have r1 := Reachable.step r0 (Step.stim (.conn 0) _ rfl (List.mem_singleton.2 rfl))
+  have r2 := Reachable.step r1 (Step.stim (.send 0 (.connect [97] 0 [] [] true none 4)) _ rfl (List.mem_singleton.2 rfl))
+  have r3 := Reachable.step r2 (Step.ackMode true false)
+  have r4 := Reachable.step r3 (Step.stim (.send 0 (.publish ⟨[116], [1], 1, false⟩ false 7)) _ rfl (List.mem_singleton.2 rfl))
+  have r5 := Reachable.step r4 (Step.stim (.conn 0) _ rfl (List.mem_singleton.2 rfl))
+  have r6 := Reachable.step r5 (Step.stim .ackRelease _ rfl (List.mem_singleton.2 rfl))
+  exact ⟨_, _, r6, rfl, rfl, rfl, rfl⟩
 
 end C20
